@@ -1084,6 +1084,14 @@ fn array_ops(out: &mut Vec<Op>, t: &Tgt, elems: &[Node], k: usize, level: u8, ne
                     i: p,
                     v: Val::Map(vec![("k1".into(), prim(k + 200))]),
                 });
+                if p == 0 {
+                    // a nested type with several children that cannot be squashed (three map entries)
+                    out.push(Op::AIns {
+                        t: t.clone(),
+                        i: p,
+                        v: Val::Map(vec![("k1".into(), prim(k + 300)), ("k2".into(), prim(k + 301)), ("k3".into(), prim(k + 302))]),
+                    });
+                }
                 out.push(Op::AIns {
                     t: t.clone(),
                     i: p,
